@@ -39,6 +39,9 @@ func Env() []string {
 		}
 	}
 	env = append(env, "GOFLAGS=-mod=mod", "GOPROXY=off", "GOTOOLCHAIN=local", "GOSUMDB=off", "GONOSUMDB=*", "GONOSUMCHECK=1", "GOWORK=off")
+	if CacheDir != "" {
+		env = append(env, "GOCACHE="+CacheDir)
+	}
 	return env
 }
 
